@@ -9,7 +9,7 @@ import subprocess
 import sys
 
 VERIF = os.path.dirname(os.path.dirname(os.path.abspath(__file__)))
-MUT = "/tmp/mechverif-mut/repo"
+MUT = (os.path.dirname(os.environ["VERIF_CLONE"]) + "/mut/repo") if os.environ.get("VERIF_CLONE") else "/tmp/mechverif-mut/repo"
 
 
 def main():
@@ -31,7 +31,7 @@ def main():
             assert s.count(old) == e.get("count", 1), (m["name"], e["file"], s.count(old))
             s = s.replace(old, e["new"].replace("\n", "\r\n") if "\r\n" in old else e["new"])
             open(p, "w", newline="").write(s)
-        env = dict(os.environ, MECH_REPO=MUT, VERIF_EVIDENCE_DIR="/tmp/mechverif-mut/evidence")
+        env = dict(os.environ, MECH_REPO=MUT, VERIF_EVIDENCE_DIR=os.path.dirname(MUT) + "/evidence")
         r = subprocess.run([sys.executable, os.path.join(VERIF, "verif.py"), prop], env=env, stdout=subprocess.PIPE, stderr=subprocess.PIPE, text=True)
         benign = m.get("benign", False)
         if benign:
